@@ -425,6 +425,14 @@ def run(rep):
         cj2 = conjuncts(rem, i['cond'], [])
         if len(cj2) == 2 and any('%' in rem.fp(c) or '&' in rem.fp(c) for c in cj2):
             sib = (i, cj2)
+    if sib is None and indexk:
+        # the short-cut is recognised by its size test alone, so that a guard that lost its parity conjunct is reported, not skipped
+        for i in [n for n in rem.walk() if n['k'] == 'IfStmt']:
+            cj2 = conjuncts(rem, i['cond'], [])
+            fs_ = [lin.cmp_le0(rem, c) for c in cj2]
+            if any(f_ in (('eq0', lin.canon({indexk: 1, 1: 2, 'std::vector::size(this.data_)': -1})),
+                          ('eq0', lin.canon({indexk: -1, 1: -2, 'std::vector::size(this.data_)': 1}))) for f_ in fs_ if f_):
+                sib = (i, cj2)
     ok = False
     why = 'sibling short-cut not recognised'
     if sib and indexk:
